@@ -11,7 +11,12 @@ from baize.datastructures import (
     QueryParams,
     UploadFile,
 )
-from baize.exceptions import MalformedJSON, MalformedMultipart, UnsupportedMediaType
+from baize.exceptions import (
+    HTTPException,
+    MalformedJSON,
+    MalformedMultipart,
+    UnsupportedMediaType,
+)
 from baize.multipart_helper import parse_async_stream as parse_multipart
 from baize.requests import MoreInfoFromHeaderMixin
 from baize.typing import Receive, Scope, Send
@@ -204,9 +209,12 @@ class Request(HTTPConnection):
             boundary = self.content_type.options["boundary"].encode("latin-1")
             return await self._parse_multipart(boundary, charset)
         if self.content_type == "application/x-www-form-urlencoded":
-            body = (await self.body).decode(
-                encoding=self.content_type.options.get("charset", "latin-1")
-            )
+            try:
+                body = (await self.body).decode(
+                    encoding=self.content_type.options.get("charset", "latin-1")
+                )
+            except (UnicodeError, LookupError) as exc:
+                raise HTTPException(400, content=f"Malformed form data: {exc}") from None
             return FormData(parse_qsl(body, keep_blank_values=True))
 
         raise UnsupportedMediaType(
